@@ -232,6 +232,8 @@ def emit (c : Cfg) (i : Ids) (toplevel useLocals : Bool) (mlocals : Option (List
 
 inductive Val where
   | undefined
+  /-- Python's `None` -/
+  | pyNone
   | obj (n : Nat)
   deriving Repr, DecidableEq
 
@@ -248,12 +250,21 @@ structure RT where
 /-- `dict.get(key, default)` -/
 def dget (m : Dict) (x : Name) (dflt : Val) : Val := (m x).getD dflt
 
-/-- `Context.get(key, default)`: `self._data.get(key, builtins.__dict__.get(key, default))` -/
-def ctxGet (rt : RT) (x : Name) (dflt : Val) : Val := dget rt.data x (dget rt.builtins x dflt)
+/-- "is the key bound in this dictionary" as the code under test decides it: by membership (`key in d`, `d.get(key,
+default)` – the regenerated form) or, were the code to test the value, `None` counting as absent -/
+def boundIn (byMembership : Bool) (m : Dict) (x : Name) : Option Val :=
+  match m x with
+  | some .pyNone => if byMembership then some .pyNone else none
+  | r => r
 
-/-- `Context.__getitem__`: `none` = KeyError -/
+/-- `Context.get(key, default)`: `self._data.get(key, builtins.__dict__.get(key, default))` -/
+def ctxGet (rt : RT) (x : Name) (dflt : Val) : Val :=
+  (boundIn Generated.Names.ctxGetByMembership rt.data x).getD (dget rt.builtins x dflt)
+
+/-- `Context.__getitem__`: `if key in self._data: return self._data[key] else: return builtins.__dict__[key]`;
+`none` = KeyError -/
 def ctxGetItem (rt : RT) (x : Name) : Option Val :=
-  match rt.data x with
+  match boundIn Generated.Names.ctxGetItemByMembership rt.data x with
   | some v => some v
   | none => rt.builtins x
 
